@@ -279,7 +279,12 @@ def _mapping_entries_rule(repo: Repo, rep: Report) -> None:
     """R14.5: the generated get_mapping() has one entry per discriminator *value*: the loop that writes the `value: Class` entries walks the
     spec's mapping itself.  Re-keying it (e.g. by target schema, to avoid duplicate imports) silently drops all but one value of a schema
     that several values select."""
-    ra = repo.func("core.writers.python_construct_renderer:PythonConstructRenderer.render_alias")
+    from sa.report import with_flatten_fallback
+
+    with_flatten_fallback(rep, repo.func("core.writers.python_construct_renderer:PythonConstructRenderer.render_alias"), _mapping_entries_body)
+
+
+def _mapping_entries_body(ra, rep) -> None:
     L = Locals(ra.node)
     n_loops = 0
     for lp in [n for n in own_nodes(ra.node) if isinstance(n, ast.For)]:
@@ -300,6 +305,16 @@ def _mapping_entries_rule(repo: Repo, rep: Report) -> None:
         # the mapping itself, or a *sequence* computed from it item by item (a list keeps one element per discriminator value; a dict
         # comprehension re-keys and can merge entries)
         direct = _direct(it) or (isinstance(it, (ast.ListComp, ast.GeneratorExp)) and len(it.generators) == 1 and not it.generators[0].ifs and _direct(it.generators[0].iter))
+        if not direct and isinstance(it, ast.Name):
+            # a list filled with exactly one `append` per item of the mapping (`entries = []; for v, ref in mapping.items(): entries.append(..)`)
+            nm = it.id
+            inits = [st for st in own_nodes(ra.node) if isinstance(st, (ast.Assign, ast.AnnAssign)) and isinstance(st.targets[0] if isinstance(st, ast.Assign) else st.target, ast.Name)
+                     and (st.targets[0] if isinstance(st, ast.Assign) else st.target).id == nm]
+            uses = [c for c in calls_in(ra.node) if isinstance(c.func, ast.Attribute) and isinstance(c.func.value, ast.Name) and c.func.value.id == nm]
+            fills = [f for f in own_nodes(ra.node) if isinstance(f, ast.For) and _direct(L.inline(f.iter, stop=tuple(L.params)))
+                     and any(isinstance(st, ast.Expr) and st.value in uses for st in f.body)]
+            direct = len(inits) == 1 and isinstance(inits[0].value, ast.List) and not inits[0].value.elts and len(fills) == 1 and len(uses) == 1 \
+                and uses[0].func.attr == "append" and not any(isinstance(x, (ast.Continue, ast.Break)) for x in ast.walk(fills[0]))
         sub = f"{ra.module.relpath}:render_alias get_mapping() entries (loop #{n_loops})"
         if direct:
             rep.ok("R14.5", sub, "one `value: Class` entry per item of the spec's discriminator mapping", ra.loc(lp))
